@@ -29,6 +29,10 @@ const freshTest = "TestPropFreshHonestAccepted"
 type FreshProg struct {
 	Signed bool      `json:"signed"`
 	Msg    vmsg.Spec `json:"msg"`
+	// Beyond: the round lies above the role's maximum but below the instance's cut-off (a correct, still undecided
+	// instance keeps timing out and announcing rounds up to round 15) and the message is still inside its slot's time
+	// window: the statement then only demands "not reject".
+	Beyond bool `json:"beyond,omitempty"`
 }
 
 func freshMaxRound(role int) int {
@@ -87,6 +91,15 @@ func runFresh(p FreshProg) *prog.Result {
 	res.Classes = []string{fmt.Sprintf("N=%d", n), "kind=" + freshKind(&s), fmt.Sprintf("role=%d", s.Role), fmt.Sprintf("round=%d", s.Round), fmt.Sprintf("signed=%v", p.Signed),
 		fmt.Sprintf("height-and-round-mod-n=0:%v", h%uint64(n) == 0 && s.Round%uint64(n) == 0 && s.Round > 0)}
 	sort.Strings(res.Classes)
+	if p.Beyond {
+		res.Classes = append(res.Classes, "beyond-role-max:"+validation.ErrorClass(err))
+		sort.Strings(res.Classes)
+		if err != nil && validation.ErrorClass(err) == "reject" {
+			res.Fail = prog.Failf("C10:fresh-honest-message-rejected:beyond-role-max", "a %s of a correct operator for round %d (role %d, maximum %d, instance cut-off 15), received %d ms into its slot, was classified as reject by a peer that had seen nothing before: %s\nmessage: %+v",
+				freshKind(&s), s.Round, s.Role, freshMaxRound(s.Role), s.RecvRelMs, validation.ErrorText(err), s)
+		}
+		return res
+	}
 	if err != nil {
 		txt := validation.ErrorText(err)
 		if txt == "" {
@@ -136,6 +149,11 @@ func genFresh(t *rapid.T) FreshProg {
 			}
 		}
 		s.Round = uint64(rapid.SampledFrom(rs).Draw(t, "round_wrap"))
+	}
+	if max == 6 && rapid.IntRange(0, 9).Draw(t, "beyond") == 0 {
+		// rounds 7-9 of a role whose maximum is 6: reached 12-16 s after the slot start, well inside the slot's window
+		p.Beyond = true
+		s.Round = uint64(rapid.IntRange(7, 9).Draw(t, "round_beyond"))
 	}
 	s.RecvRelMs = freshRecv(s.Round, int64(rapid.IntRange(0, 1900).Draw(t, "into_round")))
 	if rapid.Bool().Draw(t, "after_duty_wait") {
